@@ -49,6 +49,8 @@ pub struct Run {
     pub pre: Vec<Vec<String>>,
     /// the reader of the binary's stdout is gone before it writes anything (every write to stdout fails with a broken pipe)
     pub close_stdout: bool,
+    /// wall-clock limit of the observed run in seconds (0 = the default of 120 s, or MC_RUN_TIMEOUT_S)
+    pub limit_s: u64,
 }
 
 pub type Snapshot = BTreeMap<String, (Vec<u8>, i128, u64, u32)>;
@@ -302,7 +304,7 @@ pub fn execute(id: usize, tree: &Tree, run: &Run) -> Outcome {
     let t0 = std::time::Instant::now();
     // 120 s, plus 60 s per MiB of input (the multi-megabyte stdin inputs take a while on a loaded machine)
     let per_mib = run.stdin.as_ref().map_or(0, |b| b.len() / (1024 * 1024)) as u64 * 60;
-    let limit = std::time::Duration::from_secs(std::env::var("MC_RUN_TIMEOUT_S").ok().and_then(|s| s.parse().ok()).unwrap_or(120) + per_mib);
+    let limit = std::time::Duration::from_secs(if run.limit_s > 0 { run.limit_s } else { std::env::var("MC_RUN_TIMEOUT_S").ok().and_then(|s| s.parse().ok()).unwrap_or(120) } + per_mib);
     let mut nap = 100u64;
     let status = loop {
         match child.try_wait() {
@@ -1440,6 +1442,10 @@ pub fn c14(thorough: bool, stats: &mut Stats) -> Vec<Failure> {
                 }
                 if (k == 'F' || k == 'Z') && (after.1 != before.1 || after.2 != before.2) {
                     f.push(("formatted-file-rewritten".into(), format!("{} is already formatted but was rewritten (mtime / inode changed)", p)));
+                }
+                // (a failing file is not even rewritten with the same bytes: its time stamp stays)
+                if k != 'F' && k != 'Z' && after.1 != before.1 {
+                    f.push(("failing-file-rewritten".into(), format!("{} (kind {}) was rewritten (mtime changed)", p, k)));
                 }
                 if k != 'F' && k != 'Z' && (after.2 != before.2 || after.3 != before.3) {
                     f.push(("failing-file-replaced".into(), format!("{} (kind {}) has been replaced: inode {} -> {}, mode {:o} -> {:o}", p, k, before.2, after.2, before.3, after.3)));
